@@ -36,6 +36,7 @@ func init() {
 			{Name: "C02-CONT", Floor: 6, Doc: "in each loop node, the continue arm never proceeds to the next body statement of the same iteration", Run: c02Run},
 			{Name: "C02-OWN", Floor: 8, Doc: "a loop's break arm and a function's return arm hand back a nil control", Run: nop},
 			{Name: "C02-CTL", Floor: 150, Doc: "a control returned by a child evaluation is tested, returned or passed on before the next evaluation, before it is overwritten and before the function returns", Run: nop},
+			{Name: "C02-FALL", Floor: 1, Doc: "switch: a case block that ends without a control is followed by the next block (the block evaluation sits in a loop over the cases and is not followed by an unconditional return)", Run: nop},
 			{Name: "C02-LEVEL", Floor: 1, Doc: "the level of break N / continue N is read by the loop nodes", Run: nop},
 			{Name: "C02-CTX", Floor: 1, Doc: "Context.CreateContext allocates a fresh variable vector for every call", Run: nop},
 		},
@@ -212,6 +213,13 @@ func c02Run(r *Run) {
 		if fd.Recv != nil && len(fd.Recv.List) > 0 {
 			container = holdsChildren(info.TypeOf(fd.Recv.List[0].Type), isStmtList, 0)
 		}
+		for rs := range stmtLoops {
+			if id, ok := ast.Unparen(rs.X).(*ast.Ident); ok {
+				if v, ok := info.Uses[id].(*types.Var); ok && v.Parent() == info.Scopes[fd.Type] {
+					container = true // a helper that runs a statement list handed to it as a parameter
+				}
+			}
+		}
 		// reducer: a function of this module that returns nil or a freshly built control, never one
 		// of its parameters (nor a value type-asserted from one).
 		reducer := func(c *ast.CallExpr) bool {
@@ -256,6 +264,16 @@ func c02Run(r *Run) {
 			}
 			return true
 		})
+		// position of the control among the results of this function
+		ctlIdx, nResults := -1, 0
+		if sig, ok := info.Defs[fd.Name].Type().(*types.Signature); ok {
+			nResults = sig.Results().Len()
+			for i := 0; i < nResults; i++ {
+				if isControl(sig.Results().At(i).Type()) {
+					ctlIdx = i
+				}
+			}
+		}
 		h := &Hooks{Info: info}
 		h.Copy = func(s State) State { return s.(*c02State).clone() }
 		h.Join = func(a, b State) State {
@@ -515,8 +533,8 @@ func c02Run(r *Run) {
 			}
 			atExit(s, rs.Pos())
 			// OWN: on the break arm the control handed back must be nil
-			if s.breakPending && len(rs.Results) >= 2 {
-				last := rs.Results[len(rs.Results)-1]
+			if s.breakPending && ctlIdx >= 0 && ctlIdx < len(rs.Results) && len(rs.Results) == nResults {
+				last := rs.Results[ctlIdx]
 				if exprStr(last) == "nil" {
 					rec("C02-OWN", "consumes:break", rs.Pos(), true, "the break is consumed here: nil control handed back")
 				} else if c, ok := ast.Unparen(last).(*ast.CallExpr); ok && reducer(c) {
@@ -580,6 +598,7 @@ func c02Run(r *Run) {
 			r.bad(f.key, f.pos, f.msg)
 		}
 	}
+	c02Fall(r, npkg)
 	c02Level(r, npkg)
 	c02Ctx(r)
 }
@@ -749,4 +768,99 @@ func isIntCompare(info *types.Info, e ast.Expr) bool {
 	}
 	bt, ok := t.Underlying().(*types.Basic)
 	return ok && bt.Info()&types.IsInteger != 0
+}
+
+// c02Fall: in SwitchStatement.GetValue every evaluation of a case's statements is inside a loop and
+// no unconditional return follows it in its block.
+func c02Fall(r *Run, npkg *packages.Package) {
+	r.curRule = "C02-FALL"
+	info := npkg.TypesInfo
+	fd := findFunc(npkg, "SwitchStatement", "GetValue")
+	if fd == nil {
+		r.fail("anchor not found: (*node.SwitchStatement).GetValue")
+		return
+	}
+	sc := r.lookupType(npkg, "SwitchCase")
+	if sc == nil {
+		return
+	}
+	// an evaluation of a case block: a call that receives <case>.Statements, or <case>.GetValue(...)
+	isCaseEval := func(c *ast.CallExpr) bool {
+		if se, ok := ast.Unparen(c.Fun).(*ast.SelectorExpr); ok && se.Sel.Name == "GetValue" && namedOf(info.TypeOf(se.X)) == sc {
+			return true
+		}
+		for _, a := range c.Args {
+			if se, ok := ast.Unparen(a).(*ast.SelectorExpr); ok && se.Sel.Name == "Statements" && namedOf(info.TypeOf(se.X)) == sc {
+				return true
+			}
+		}
+		return false
+	}
+	n := 0
+	var walk func(list []ast.Stmt, inLoop bool)
+	var walkStmt func(st ast.Stmt, inLoop bool)
+	walk = func(list []ast.Stmt, inLoop bool) {
+		for i, st := range list {
+			has := false
+			ast.Inspect(st, func(m ast.Node) bool {
+				switch x := m.(type) {
+				case *ast.BlockStmt:
+					return false // nested blocks are judged on their own
+				case *ast.CallExpr:
+					if isCaseEval(x) {
+						has = true
+					}
+				}
+				return true
+			})
+			if _, isBlockLike := st.(*ast.BlockStmt); !isBlockLike && has {
+				n++
+				key := funcKey(npkg, fd) + "#case-block-evaluation"
+				uncond := false
+				for _, later := range list[i+1:] {
+					if _, ok := later.(*ast.ReturnStmt); ok {
+						uncond = true
+					}
+				}
+				switch {
+				case !inLoop:
+					r.bad(key, st.Pos(), "the statements of the matched case are evaluated outside any loop over the cases: a case without break cannot continue into the next one")
+				case uncond:
+					r.bad(key, st.Pos(), "the evaluation of a case block is followed by an unconditional return: a case that ends without break leaves the switch instead of falling through")
+				default:
+					r.ok(key, st.Pos(), "a case block that ends normally is followed by the next iteration over the cases")
+				}
+			}
+			walkStmt(st, inLoop)
+		}
+	}
+	walkStmt = func(st ast.Stmt, inLoop bool) {
+		switch x := st.(type) {
+		case *ast.BlockStmt:
+			walk(x.List, inLoop)
+		case *ast.IfStmt:
+			walk(x.Body.List, inLoop)
+			if x.Else != nil {
+				walkStmt(x.Else, inLoop)
+			}
+		case *ast.ForStmt:
+			walk(x.Body.List, true)
+		case *ast.RangeStmt:
+			walk(x.Body.List, true)
+		case *ast.SwitchStmt:
+			for _, cc := range x.Body.List {
+				walk(cc.(*ast.CaseClause).Body, inLoop)
+			}
+		case *ast.TypeSwitchStmt:
+			for _, cc := range x.Body.List {
+				walk(cc.(*ast.CaseClause).Body, inLoop)
+			}
+		case *ast.LabeledStmt:
+			walkStmt(x.Stmt, inLoop)
+		}
+	}
+	walk(fd.Body.List, false)
+	if n == 0 {
+		r.fail("no evaluation of a case block found in (*node.SwitchStatement).GetValue")
+	}
 }
